@@ -486,6 +486,39 @@ class Gen:
             ctx.count("stack_hist_merge" if merge else "stack_hist_gap")
             self.stack_hist.append({"init": members[:ninit], "ops": ops, "eq_fresh": True, "members": members, "merge": merge})
 
+    def exhaustive(self):
+        """Every history up to a fixed length over a fixed alphabet of calls, on a small swath (numpy and xarray+dask)
+        and on a small area."""
+        import itertools
+        ctx = self.ctx
+        L = ctx.n(3, 4)
+        lon, lat = [[10.0, 11.5], [12.25, 13.0]], [[50.0, 50.5], [51.0, 51.75]]
+        al, at = [[14.0, 15.0]], [[52.0, 52.5]]
+        meta = dict(lon=lon, lat=lat, ndim=2, dtype="f8", shape=(2, 2))
+        other = self.add(self.swath_spec("np", al, at), kind="np", lon=al, lat=at, ndim=2, dtype="f8", shape=(1, 2))
+        for kind in ("np", "xrdask"):
+            start = self.add(self.swath_spec(kind, lon, lat, chunks=1), kind=kind, **meta)
+            twin = self.add(self.swath_spec(kind, lon, lat, chunks=1), kind=kind, **meta)
+            alphabet = [["hash"], ["eq", twin], ["append", other], ["slice", [None, None], [0, 2]], ["slice", [0, 1], [None, None]], ["copy"]]
+            for n in range(1, L + 1):
+                for ops in itertools.product(alphabet, repeat=n):
+                    self.swath_hist.append({"start": start, "ops": [list(o) for o in ops]})
+                    ctx.count("swath_hist_exhaustive_" + kind)
+        ext = {"cont": "tuple", "nums": [{"k": "float", "v": hx(v)} for v in (-304699.2, 3474974.0999999996, -258593.40000000002, 3523084.4999999995)]}
+        for crs in ({"k": "str", "v": PROJ_FAMILIES[0]}, {"k": "str", "v": "EPSG:3857"}):
+            a = self.add({"t": "area", "crs": crs, "w": {"k": "int", "v": 46}, "h": {"k": "int", "v": 48}, "ext": ext},
+                         fam=None, vals=[float.fromhex(n["v"]) for n in ext["nums"]], w=46, h=48, f32=False)
+            twin = self.add({"t": "area", "crs": crs, "w": {"k": "np64i", "v": 46}, "h": {"k": "float", "v": 48}, "ext": dict(ext, cont="list")},
+                            fam=None, vals=[float.fromhex(n["v"]) for n in ext["nums"]], w=46, h=48, f32=False)
+            alphabet = [["hash"], ["eq", twin], ["slice", [None, None], [None, None]], ["slice", [0, 1], [-1, None]], ["copy"]]
+            for n in range(1, L + 1):
+                for ops in itertools.product(alphabet, repeat=n):
+                    self.area_hist.append({"start": a, "ops": [list(o) for o in ops]})
+                    ctx.count("area_hist_exhaustive")
+        ctx.exhaustive = True
+        ctx.notes.append("exhaustive: every history of length <= %d over {hash, ==, append, full slice, partial slice, copy} on a 2x2 swath "
+                         "(numpy; xarray over dask) and over {hash, ==, full slice, partial slice, copy} on a 46x48 area (PROJ string; EPSG:3857)" % L)
+
     def payload(self):
         return {"geos": self.geos, "pairs": self.pairs, "keys": self.keys, "kwargs": KWARGS, "lru": self.lru,
                 "area_hist": self.area_hist, "swath_hist": self.swath_hist,
@@ -927,6 +960,7 @@ def run(ctx):
     g.areas()
     g.swaths()
     g.stacks()
+    g.exhaustive()
     obs = ctx.impl("c12", g.payload(), timeout=3000)
     evaluate(ctx, g, obs, record=True)
 
